@@ -336,6 +336,33 @@ pub fn write_replay(prop: &str, seed: u64, index: u64, d: &RunData, vio: &Violat
     path
 }
 
+pub fn write_stuck_replay(prop: &str, seed: u64, index: u64, tier: &str) -> String {
+    let rs = run_seed(seed, prop, index);
+    let case = check::make_case(prop, rs, index, tier);
+    let rp = Replay {
+        version: 1,
+        property: prop.to_string(),
+        signature: "hang/no-scheduling-point".into(),
+        detail: "the run never reached another scheduling point".into(),
+        engine: "ksim".into(),
+        seed,
+        index,
+        case,
+        ts: vec![],
+        ds: vec![],
+        log_hash: 0,
+        minimised: false,
+        rng_seed: Some(mix(rs, 0xE)),
+        range_start: Some(index),
+        tier: Some(tier.to_string()),
+    };
+    let dir = format!("{}/replays", base_dir());
+    let _ = std::fs::create_dir_all(&dir);
+    let path = format!("{}/{}-stuck-{}-{}.json", dir, prop, seed, index);
+    std::fs::write(&path, serde_json::to_string_pretty(&rp).unwrap()).expect("write replay");
+    path
+}
+
 pub fn write_crash_replay(prop: &str, seed: u64, index: u64, tier: &str, range_start: u64) -> String {
     let rs = run_seed(seed, prop, index);
     let case = check::make_case(prop, rs, index, tier);
@@ -399,6 +426,11 @@ pub fn cmd_worker(args: &[String]) -> i32 {
                 first_violation_at = Some(i);
             }
             if seen_sigs.insert(vio.sig.clone()) && seen_sigs.len() <= 4 {
+                {
+                    // minimisation can take a while without any further output: tell the driver's stuck-run watchdog
+                    let mut o = out.lock();
+                    let _ = writeln!(o, "M {}", i);
+                }
                 let (d2, vio2, minimised) = crate::driver::minimise(prop, &d, vio);
                 let path = write_replay(prop, seed, i, &d2, &vio2, minimised);
                 let mut o = out.lock();
@@ -527,6 +559,12 @@ pub fn cmd_check(prop: &str, tier: &str) -> i32 {
     let (tx, rx) = std::sync::mpsc::channel::<Msg>();
     let mut running: BTreeMap<u64, (std::sync::Arc<std::sync::Mutex<std::process::Child>>, u64, Instant, u64)> = BTreeMap::new();
     let limit_s: u64 = std::env::var("VERIF_WORKER_TIMEOUT").ok().and_then(|s| s.parse().ok()).unwrap_or(if tier == "thorough" { 3600 } else { 600 });
+    // a run that produces no output for this long is stuck INSIDE the simulated system at a place without any
+    // scheduling point (a loop in the library that touches no atomic, lock, clock or thread primitive): a normal run
+    // takes well under a second (the decision bound ends it), minimisation announces itself
+    let stuck_s: u64 = std::env::var("VERIF_STUCK_S").ok().and_then(|s| s.parse().ok()).unwrap_or(30);
+    let mut last_seen: BTreeMap<u64, (Instant, bool)> = BTreeMap::new();
+    let mut stuck_reports = 0u64;
     loop {
         while (running.len() as u64) < workers {
             let Some((st, cnt)) = pending.pop() else { break };
@@ -548,12 +586,16 @@ pub fn cmd_check(prop: &str, tier: &str) -> i32 {
                 let _ = tx2.send(Msg::End(st, ok));
             });
             running.insert(st, (child, cnt, Instant::now(), st));
+            last_seen.insert(st, (Instant::now(), false));
         }
         if running.is_empty() {
             break;
         }
         match rx.recv_timeout(std::time::Duration::from_secs(2)) {
             Ok(Msg::Line(st, line)) => {
+                if let Some(e) = last_seen.get_mut(&st) {
+                    *e = (Instant::now(), line.starts_with("M "));
+                }
                 if let Some(j) = line.strip_prefix("V ") {
                     if let Ok(vj) = serde_json::from_str::<Value>(j) {
                         vios.push(vj);
@@ -606,6 +648,29 @@ pub fn cmd_check(prop: &str, tier: &str) -> i32 {
                     let _ = child.lock().map(|mut c| c.kill());
                 }
                 running.clear();
+            }
+        }
+        // stuck-run watchdog
+        let nowi = Instant::now();
+        let stuck: Vec<u64> = running
+            .keys()
+            .filter(|k| last_seen.get(k).map_or(false, |(t, minimising)| !*minimising && nowi.duration_since(*t).as_secs() > stuck_s))
+            .cloned()
+            .collect();
+        for st in stuck {
+            if let Some((child, cnt, _, last)) = running.remove(&st) {
+                let _ = child.lock().map(|mut c| c.kill());
+                stuck_reports += 1;
+                let path = write_stuck_replay(prop, seed, last, &tier);
+                vios.push(json!({"index": last, "sig": "hang/no-scheduling-point", "detail": format!("run {} produced no scheduling point for more than {} s of wall-clock time: a call into the library never returns and touches no atomic, lock, clock or thread primitive while it spins", last, stuck_s), "replay": path}));
+                if first_vio.is_none() {
+                    first_vio = Some(Instant::now());
+                }
+                if stuck_reports <= 3 && last + 1 < st + cnt && first_vio.is_none() {
+                    pending.push((last + 1, st + cnt - (last + 1)));
+                } else if !pending.is_empty() {
+                    pending.clear();
+                }
             }
         }
         // watchdog
@@ -783,6 +848,44 @@ pub fn cmd_replay(path: &str) -> i32 {
             return 2;
         }
     };
+    if rp.signature == "hang/no-scheduling-point" {
+        // re-execute that one run in a child process and give it the same wall-clock allowance
+        let stuck_s: u64 = std::env::var("VERIF_STUCK_S").ok().and_then(|s| s.parse().ok()).unwrap_or(30);
+        let tier = rp.tier.clone().unwrap_or("quick".into());
+        let exe = std::env::current_exe().unwrap();
+        let mut child = match Command::new(&exe)
+            .args(["worker", &rp.property, &rp.seed.to_string(), &rp.index.to_string(), "1", &tier])
+            .stdout(Stdio::null())
+            .stderr(Stdio::null())
+            .spawn()
+        {
+            Ok(c) => c,
+            Err(e) => {
+                eprintln!("cannot start the replay process: {}", e);
+                return 2;
+            }
+        };
+        let t0 = Instant::now();
+        loop {
+            match child.try_wait() {
+                Ok(Some(_)) => {
+                    println!("run {} of {} finished after {:.1} s: not stuck", rp.index, rp.property, t0.elapsed().as_secs_f64());
+                    return 0;
+                }
+                Ok(None) => {}
+                Err(_) => return 2,
+            }
+            if t0.elapsed().as_secs() > stuck_s {
+                let _ = child.kill();
+                let _ = child.wait();
+                println!("VIOLATION property={} replay={}", rp.property, path);
+                println!("  signature=hang/no-scheduling-point");
+                println!("  run {} did not reach another scheduling point within {} s", rp.index, stuck_s);
+                return 1;
+            }
+            std::thread::sleep(std::time::Duration::from_millis(200));
+        }
+    }
     if let (Some(_), Some(start)) = (rp.rng_seed, rp.range_start) {
         // re-execute the worker's chunk prefix in this process; if the simulated system corrupts memory the
         // process dies here exactly as the worker did
